@@ -5,6 +5,7 @@ import (
 	"go/token"
 	"go/types"
 	"math/big"
+	"strings"
 
 	"golang.org/x/tools/go/ssa"
 )
@@ -164,6 +165,7 @@ func (g *gen) execInstr(ins ssa.Instruction, st *State, b *ssa.BasicBlock) {
 			bs = append(bs, g.val(bnd))
 		}
 		g.closures[c.id] = &closureInfo{fn: x.Fn.(*ssa.Function), bindings: bs}
+		g.assumeGlobal(Eq(App("fnname", SStr, c), Str(strings.TrimSuffix(x.Fn.Name(), "$bound"))))
 		g.set(x, v)
 	case *ssa.MakeMap:
 		r := g.alloc(st, "map."+x.Name())
